@@ -7,6 +7,7 @@
 -/
 import PV.Model.SftpServer
 import PV.Model.SftpClientInv
+import PV.Model.ClientLockLemmas
 namespace PV.Props.C30
 open PV PV.SftpServer PV.Generated.C30
 
@@ -101,6 +102,56 @@ theorem client_never_waits_forever (maxReq nfiles : Nat) (wfaults sfaults : List
   have hlen0 : (SftpClient.init maxReq nfiles wfaults sfaults).files.length = nfiles := by simp [SftpClient.init]
   exact (SftpClient.runOps_good ops _ (SftpClient.init_good maxReq nfiles wfaults sfaults)
     (by rw [hlen0]; exact hops)).1
+
+/-! ## the client's lock under channel back-pressure -/
+
+/-- the lock/back-pressure model instantiated with what the AST of `SFTPClient._async_request` says about where the
+    packet is sent (`sendUnderLock` is false iff `_send_packet` is called outside the `self._lock` region) -/
+def srcCfg (capReq ta capAns tb : Nat) : ClientLock.Cfg := ⟨capReq, ta, capAns, tb, sendUnderLock⟩
+
+/-- **No deadlock under back-pressure.**  A background sender (prefetch thread), the reader and the server over a
+    flow-controlled channel: for all window sizes and adjustment thresholds (threshold ≤ window, as in paramiko),
+    any number of requests and any schedule — as long as not everything has been sent, answered and collected, some
+    party can move: the sender never blocks in `send()` while it holds `_lock`, so the reader can always take the
+    lock for the packet it has read, which re-opens the windows.  Depends on the source fact "the packet is sent
+    outside the lock region" (regenerated from the AST every run). -/
+theorem client_never_blocks_under_backpressure (capReq ta capAns tb n : Nat)
+    (hc : ClientLock.CfgOK (srcCfg capReq ta capAns tb)) (acts : List ClientLock.Act)
+    (hnd : ¬ ClientLock.Done (ClientLock.run (srcCfg capReq ta capAns tb) (ClientLock.init (srcCfg capReq ta capAns tb) n) acts)) :
+    ∃ a, (ClientLock.step (srcCfg capReq ta capAns tb)
+      (ClientLock.run (srcCfg capReq ta capAns tb) (ClientLock.init (srcCfg capReq ta capAns tb) n) acts) a).isSome = true := by
+  have hsrc : sendUnderLock = false := by decide
+  have hns : (srcCfg capReq ta capAns tb).sendUnderLock = false := hsrc
+  exact ClientLock.not_done_enabled hc hns (ClientLock.run_wf hns (ClientLock.init_wf hc n) acts) hnd
+
+/-- …and every step uses up work (8 per request not yet issued, 5 per request queued at the server, 4 for the answer
+    the server holds, 3 per queued answer, 1–2 for lock phases): the session finishes within `mu` steps. -/
+theorem backpressure_steps_decrease_work (capReq ta capAns tb n : Nat)
+    (hc : ClientLock.CfgOK (srcCfg capReq ta capAns tb)) (acts : List ClientLock.Act) (a : ClientLock.Act) (s' : ClientLock.St)
+    (h : ClientLock.step (srcCfg capReq ta capAns tb)
+      (ClientLock.run (srcCfg capReq ta capAns tb) (ClientLock.init (srcCfg capReq ta capAns tb) n) acts) a = some s') :
+    ClientLock.mu s' < ClientLock.mu
+      (ClientLock.run (srcCfg capReq ta capAns tb) (ClientLock.init (srcCfg capReq ta capAns tb) n) acts) := by
+  have hsrc : sendUnderLock = false := by decide
+  have hns : (srcCfg capReq ta capAns tb).sendUnderLock = false := hsrc
+  exact ClientLock.step_decreases hns (ClientLock.run_wf hns (ClientLock.init_wf hc n) acts) h
+
+/-- why the source fact matters: with the packet sent while the lock is held (windows 3 and 2 packets, thresholds 2,
+    8 requests) this schedule ends in a state where nothing is done and nobody can move — the sender sits in
+    `send()` holding the lock, the server cannot deliver its answer, the reader has a packet and waits for the lock. -/
+theorem send_under_lock_deadlocks_witness :
+    let cfg : ClientLock.Cfg := ⟨3, 2, 2, 2, true⟩
+    let s := ClientLock.run cfg (ClientLock.init cfg 8)
+      [.sAcquire, .sSend, .sAcquire, .sSend, .sAcquire, .sSend, .sAcquire, .srvTake, .srvSend, .srvTake, .sSend,
+       .sAcquire, .sSend, .sAcquire, .srvSend, .srvTake, .rRecv]
+    ClientLock.stuck cfg s = true ∧ s.remaining = 3 ∧ s.lock = some .sender ∧ s.rpc = .needLock := by decide
+
+/-- non-vacuity: the same schedule with the send outside the lock is not stuck -/
+example :
+    let cfg : ClientLock.Cfg := ⟨3, 2, 2, 2, false⟩
+    ClientLock.stuck cfg (ClientLock.run cfg (ClientLock.init cfg 8)
+      [.sAcquire, .sRelease, .sSend, .sAcquire, .sRelease, .sSend, .sAcquire, .sRelease, .sSend, .sAcquire, .srvTake,
+       .srvSend, .srvTake, .rRecv]) = false := by decide
 
 /-- non-vacuity: FSETSTAT on an unknown handle (answered with packet type 5 before the fix) -/
 example : serve cmdFsetstat 7 ⟨.none, true, false, .other, false, .ok⟩ = [(cmdStatus, 7, .fixed sftpBadMessage)] := by
